@@ -850,6 +850,11 @@ class RZILTransformer(Transformer):
             a = self.promotion_cast(a)
             b = self.promotion_cast(b)
             a, b = self.cast_operands(a=a, b=b, immutable_a=False)
+        elif a and b:
+            # Shifts: Both operands are promoted on their own. The result has
+            # the type of the promoted left operand (C11 - 6.5.7).
+            a = self.promotion_cast(a)
+            b = self.promotion_cast(b)
         v = BitOp(name, a, b, op_type)
         return self.add_op(v)
 
@@ -951,7 +956,12 @@ class RZILTransformer(Transformer):
         if result:
             return self.add_op(result)
         op_type = CompareOpType(items[1])
-        a, b = self.cast_operands(a=items[0], b=items[2], immutable_a=False)
+        # The usual arithmetic conversions include the integer promotion (C11 - 6.3.1.8).
+        a, b = self.cast_operands(
+            a=self.promotion_cast(items[0]),
+            b=self.promotion_cast(items[2]),
+            immutable_a=False,
+        )
         return self.add_op(CompareOp(f"op_{op_type.name}", a, b, op_type))
 
     def for_loop(self, items):
